@@ -209,7 +209,7 @@ func vfRunShutdown(t *testing.T, spec *vfSpec, res *vfRes) {
 			if (side == 0 && ra == nil) || (side == 1 && rb == nil) {
 				continue
 			}
-			for _, run := range w.runs {
+			for _, run := range w.allRuns() {
 				if run.wside != side {
 					continue
 				}
@@ -252,7 +252,7 @@ func vfRunShutdown(t *testing.T, spec *vfSpec, res *vfRes) {
 			}
 			tm.Stop()
 		}
-		nFault := sim.net.nDrop + sim.net.nDup + sim.net.nDelay
+		nFault := sim.net.faultsHit()
 		time.Sleep(3 * time.Second)
 		sim.quiesce()
 		if first >= 0 {
@@ -309,7 +309,7 @@ func vfRunShutdown(t *testing.T, spec *vfSpec, res *vfRes) {
 		sim.finalLeakCheck()
 		sim.runMonitors(vfMonCfg{})
 		// delivery: everything accepted before the call by a side whose Shutdown returned nil
-		for _, run := range w.runs {
+		for _, run := range w.allRuns() {
 			st := vfCheckDelivery(res, "C08", run, retNil[run.wside])
 			run.mu.Lock()
 			end := run.readEnd
